@@ -613,27 +613,29 @@ def run(ck, build, only_c04=False):
     ck.not_decided += ["the 2^-64 forgery bound", "sensitivity of the computed tag to every input bit (a property of the cipher; the mode structure is C02's)"]
     ck.assume("distinct pointer parameters do not overlap (except c == m); size_t arithmetic on lengths does not wrap")
     from . import modecommon
-    if modecommon.nostate_rule(ck, build, "R-C03-NOSTATE", ("aead", "siv"), "the six decrypt entry points (and the encrypt functions sharing their helpers)"):
+    if modecommon.nostate_rule(ck, build, "R-C03-NOSTATE", ("aead",), "the three AEAD decrypt entry points (and the encrypt functions sharing their helpers)"):
         return
     mod = Module(build.facts("H", "N0"))
     ck.config("H", "N0")
     label = "H/N0"
-    fns = dec_fns(mod)
-    ck.floor("R-C03", "decrypt entry points", len(fns), 6)
+    # the property is about the three AEAD decrypt functions (and the helpers they share with SIV); the SIV decrypt functions are C08's, which
+    # re-runs these rules on them under its own name
+    fns = dec_fns(mod, kinds=("aead",))
+    ck.floor("R-C03", "decrypt entry points", len(fns), 3)
     n = 0
     o3 = _Only03(ck)
     for f in fns:
         n += guard_and_must(o3, f, label)
         args_rule(o3, mod, f, label)
     cmp_rule(o3, mod, label)
-    ck.floor("R-C03-GUARD", "clen classes explored", n, 60)
+    ck.floor("R-C03-GUARD", "clen classes explored", n, 30)
     # every ciphertext bit can influence the verdict (mode summaries of the decrypt functions; optional where their shape is not recognised)
     from . import aeadlib
     ck.rule("R-C03-SENS", "per path class of every decrypt function (symbolic summaries, permutation uninterpreted): each ciphertext bit of the segment occurs in the term of the "
             "corresponding recovered plaintext bit and, for the one-pass AEAD, in the state the tag is generated from - a mask that drops a bit (0x7FFF for 0xFFFF) makes "
             "tampering with that bit invisible to the authentication")
     ns = 0
-    for f in aeadlib.cipher_fns(mod, ("aead", "siv")):
+    for f in aeadlib.cipher_fns(mod, ("aead",)):
         if not f.name.endswith("_decrypt"):
             continue
         from . import modecommon as _mc
@@ -655,6 +657,40 @@ def run(ck, build, only_c04=False):
         except Broken as e:
             ck.rollback(snap_)
             ck.note("nonce sensitivity of tinyjambu_setup_%s not decided: %s" % (ks_, str(e)[:160]))
+    ck.rule("R-C03-DUAL", "premise of 'succeeds if the trailing 8 bytes equal the tag encryption yields for the same key, nonce, associated data and recovered plaintext': decrypt recomputes "
+            "exactly the tag encrypt computes - the relational rules of C01 re-run: per path class and, as straight paths, for every message length 0..80, decrypt applied to "
+            "encrypt's output terms regenerates the stored tag bit for bit.  A deviation in decrypt alone rejects genuine packets")
+    from . import duallib, modecommon as _mc2
+
+    class _TagSide:
+        """of the relational obligations, the ones about what decrypt authenticates (calls, states, the regenerated tag, the verdict); that the
+        plaintext bytes handed back are the original ones is C01's / C08's clause, not this one"""
+
+        def __init__(self, ck_):
+            self._ck = ck_
+
+        def ob(self, cond, rule, fn, cons, ok_, bad_, **k):
+            if not cond and ("-recover" in cons or "-enc-out" in cons or "decrypt(encrypt(x)) byte" in bad_):
+                return cond
+            return self._ck.ob(cond, rule, fn, cons, ok_, bad_, **k)
+
+        def __getattr__(self, n_):
+            return getattr(self._ck, n_)
+    ckd = _TagSide(ck)
+    for kind_, small_, pm_ in (("aead", duallib.check_pair_small, {"MODE": "R-C03-DUAL", "PREFIX": "R-C03-DUAL"}),):
+        snap_ = ck.snapshot()
+        try:
+            for ks_ in ("128", "192", "256"):
+                small_(ckd, mod, ks_, label, {"SMALLRT": "R-C03-DUAL"}, maxlen=(160 if ck.tier == "thorough" else 80))
+        except Broken as e:
+            ck.rollback(snap_)
+            ck.note("relational small-length rule (%s) not decided: %s" % (kind_, str(e)[:160]))
+        snap_ = ck.snapshot()
+        try:
+            _mc2.run_pairs(ckd, mod, (kind_,), pm_)
+        except Broken as e:
+            ck.rollback(snap_)
+            ck.note("pairwise comparison (%s) not decided: %s" % (kind_, str(e)[:160]))
     ck.rule("R-C03-ABSORB", "premise of 'modified associated data is rejected': the shared absorb function leaves a state that is an injective function of the bytes of every segment "
             "(word, 1-, 2- and 3-byte tail; rank of the GF(2)-linear map the bytes enter by, or a concrete pair of inputs absorbed alike) - per path class and for every size 0..24 as straight paths")
     aeadlib.absorb_injective_rule(ck, mod, label, "R-C03-ABSORB")
